@@ -226,6 +226,41 @@ def conn_suite(ctx, vh, name, args):
                        "case": slim(rows[bad_agree[0]])}, no_input=True)
 
 
+# ------------------------------------------------------------------ receiver, two concurrent deliverers
+def recv_suite(ctx, vh, name, args):
+    """the real client Manager fed by two goroutines through VerifDeliver: payloads of whole packets
+    against single-frame calls (or against payloads); every event must reach its handler once, intact"""
+    rows = ctx.vh_jsonl(vh, "order", ["-mode", "recv"] + args, timeout=300)
+    if rows is None:
+        return
+    rows = split_env(ctx, rows, "recv/" + name)
+    if not rows:
+        return
+    terms = [entries_term(r) for r in rows]
+    for r in rows:
+        ctx.count(len(r["entries"]), nontrivial_key=("r", r["seed"]), dist="recv:two-deliverers")
+    bad = ctx.coq_eval_cases("recv_once_" + name, HDR, terms, "entries_exactly_once", shard=4)
+    bad = sorted(set(bad) | {i for i, r in enumerate(rows) if r["inversions"] or r.get("parseerr") or not r["complete"]})
+    ctx.obligation("oracle:recv/" + name, "oracle", not bad,
+                   "%d runs, %d handler entries; every event entered exactly once with its own arguments: %d runs fail"
+                   % (len(rows), sum(len(r["entries"]) for r in rows), len(bad)))
+    for i in bad[:3]:
+        r = rows[i]
+        ctx.fail_or_known(None, "receiver fed by two concurrent deliverers (payloads of whole packets vs %s): %d of %d events reached a "
+                          "handler, %d with wrong arguments, manager error: %s - a frame of one deliverer got between a header and its "
+                          "attachments of the other" % ("payloads" if all(k > 0 for k in r["attcounts"][1]) else "single-frame calls",
+                                                        len(r["entries"]), sum(r["bursts"]), r["inversions"], r.get("parseerr")),
+                          {"kind": "failing-input", "engine": "order", "mode": "recv", "args": args, "case": slim(r)})
+    good = [i for i in range(len(rows)) if i not in bad]
+    bad_agree = ctx.coq_eval_cases("recv_agree_" + name, HDR, [terms[i] for i in good], "agree_entries", shard=4)
+    ctx.obligation("correspondence:recv/" + name, "correspondence", not bad_agree,
+                   "%d entry orders reproduced by the model's dispatch step, %d not" % (len(good) - len(bad_agree), len(bad_agree)))
+    if bad_agree and not bad:
+        ctx.violation("receiver history is not a behaviour of the model",
+                      {"kind": "correspondence-broken", "suite": "recv/" + name, "theorems": ["C02_recv_whole_calls"],
+                       "case": slim(rows[good[bad_agree[0]]])}, no_input=True)
+
+
 # ------------------------------------------------------------------ handler level
 def handler_suite(ctx, vh, name, args):
     rows = ctx.vh_jsonl(vh, "order", ["-mode", "handler"] + args, timeout=600)
@@ -300,6 +335,8 @@ def run(ctx):
         if rep.get("engine") == "order" and rep.get("args"):
             if rep.get("mode") == "handler":
                 handler_suite(ctx, vh, "replay", [str(a) for a in rep["args"]])
+            elif rep.get("mode") == "recv":
+                recv_suite(ctx, vh, "replay", [str(a) for a in rep["args"]])
             elif rep.get("mode") == "connrace":
                 conn_suite(ctx, vh, "replay", [str(a) for a in rep["args"]])
             else:
@@ -324,9 +361,12 @@ def run(ctx):
         lap("connrace/race")
         conn_suite(ctx, vh, "window", ["-seed", seed + 4, "-n", 4, "-emitters", 2, "-burst", 12, "-window", "-par", 4])
         lap("connrace/window")
+        recv_suite(ctx, vh, "two", ["-seed", seed + 5, "-n", 8, "-par", 4])
+        lap("recv")
     else:
         wire_suite(ctx, vh, "burst", ["-seed", seed, "-n", 144, "-burst", 40, "-par", 6])
         wire_suite(ctx, vh, "paced", ["-seed", seed + 1, "-n", 12, "-emitters", 8, "-burst", 60, "-pace", 40000, "-par", 6])
         handler_suite(ctx, vh, "burst", ["-seed", seed + 2, "-n", 72, "-burst", 150, "-par", 6])
         conn_suite(ctx, vh, "race", ["-seed", seed + 3, "-n", 48, "-emitters", 8, "-burst", 100, "-par", 3])
         conn_suite(ctx, vh, "window", ["-seed", seed + 4, "-n", 12, "-emitters", 3, "-burst", 20, "-window", "-par", 4])
+        recv_suite(ctx, vh, "two", ["-seed", seed + 5, "-n", 40, "-par", 4])
